@@ -8,6 +8,13 @@ import Oryx.Proofs.RtmpPktTxn
 namespace Oryx.Props.C03
 open Oryx Oryx.Res Oryx.Amf0 Oryx.Rtmp Oryx.RtmpPkt
 
+/-- Go type name of each packet kind (for the gate on `ctorKind` below). -/
+def goTypeName : Kind → String
+  | .connect => "ConnectAppPacket" | .connectRes => "ConnectAppResPacket" | .createStream => "CreateStreamPacket"
+  | .createStreamRes => "CreateStreamResPacket" | .publish => "PublishPacket" | .play => "PlayPacket" | .call => "CallPacket"
+  | .setChunkSize => "SetChunkSize" | .winAck => "WindowAcknowledgementSize" | .setPeerBw => "SetPeerBandwidth"
+  | .userControl => "UserControl"
+
 /-! ### gating obligations on the regenerated tables
 
 The model is written against the switch arms, constants and facts the translator reads from the Go
@@ -30,6 +37,9 @@ example : Gen.Rtmp.parseCommandArm Gen.Rtmp.commandCloseStreamBytes = .NewCallPa
 example : Gen.Rtmp.parseResponseArm Gen.Rtmp.commandConnectBytes = .NewConnectAppResPacket := by decide
 example : Gen.Rtmp.parseResponseArm Gen.Rtmp.commandCreateStreamBytes = .NewCreateStreamResPacket := by decide
 example : Gen.Rtmp.parseResponseArm Gen.Rtmp.commandPlayBytes = .rejected := by decide
+-- the model's constructor → packet type map is the source's
+example : ∀ c : Gen.Rtmp.Ctor, (ctorKind c).map goTypeName = (if Gen.Rtmp.ctorGoType c = "" then none else some (Gen.Rtmp.ctorGoType c)) := by
+  intro c; cases c <;> decide
 -- `BetterCid()` / `Type()` of every packet type
 example : (Kind.connect.msgType, Kind.connectRes.msgType, Kind.createStream.msgType, Kind.createStreamRes.msgType,
            Kind.publish.msgType, Kind.play.msgType, Kind.call.msgType) = (20, 20, 20, 20, 20, 20, 20) := by decide
@@ -135,9 +145,9 @@ theorem requests_arrive_as_calls (tbl : TxnTable) (tid : UInt64) (obj : Option V
     Arrives tbl (.createStream ⟨Gen.Rtmp.commandCreateStreamBytes, tid, obj⟩) (.call ⟨Gen.Rtmp.commandCreateStreamBytes, tid, obj⟩ none) tbl ∧
     Arrives tbl (.play ⟨Gen.Rtmp.commandPlayBytes, tid, obj⟩ sn) (.call ⟨Gen.Rtmp.commandPlayBytes, tid, obj⟩ (some (.str sn))) tbl ∧
     Arrives tbl (.call ⟨Gen.Rtmp.commandCloseStreamBytes, tid, obj⟩ none) (.call ⟨Gen.Rtmp.commandCloseStreamBytes, tid, obj⟩ none) tbl :=
-  ⟨.createStream _ (show Gen.Rtmp.parseCommandArm Gen.Rtmp.commandCreateStreamBytes = _ by decide),
-   .play _ _ (show Gen.Rtmp.parseCommandArm Gen.Rtmp.commandPlayBytes = _ by decide),
-   .call _ _ (show Gen.Rtmp.parseCommandArm Gen.Rtmp.commandCloseStreamBytes = _ by decide)⟩
+  ⟨.createStream _ (show ctorKind (Gen.Rtmp.parseCommandArm Gen.Rtmp.commandCreateStreamBytes) = _ by decide),
+   .play _ _ (show ctorKind (Gen.Rtmp.parseCommandArm Gen.Rtmp.commandPlayBytes) = _ by decide),
+   .call _ _ (show ctorKind (Gen.Rtmp.parseCommandArm Gen.Rtmp.commandCloseStreamBytes) = _ by decide)⟩
 
 /-! ### transactions -/
 
